@@ -36,6 +36,7 @@ type Obs struct {
 	BackOutside       bool // converted-back value contains something outside the universe of shapes
 	Deep              bool
 	Obj               *ObjObs
+	Ffmt              map[uint64]string
 }
 
 // ObjObs: the struct <-> object clause, observed for cases whose shape is a struct or a pointer to one.
@@ -51,6 +52,7 @@ type ObjObs struct {
 	NewPErr, NewPText string // px.New(type, positional...) then Reflect2
 	NewPBack          *Val
 	NewPDeep          bool
+	SingleHash        bool // the positional argument list is one Hash
 }
 
 func guarded(f func()) (errc, text string) {
@@ -78,7 +80,8 @@ func deepEqual(s *Shape, orig reflect.Value, origV *Val, back reflect.Value, kno
 func runCase(cs *Case) *Obs {
 	o := &Obs{}
 	pcore.Do(func(c px.Context) {
-		env := &caseEnv{known: map[reflect.Type]*Shape{}}
+		env := &caseEnv{known: map[reflect.Type]*Shape{}, ffmt: map[uint64]string{}}
+		o.Ffmt = env.ffmt
 		var structs []*Shape
 		seen := map[string]bool{}
 		structShapes(cs.S, seen, &structs)
@@ -105,8 +108,10 @@ func runCase(cs *Case) *Obs {
 			if err != nil {
 				panic(err)
 			}
-			o.Type, o.TypeText = typeTerm(pt), pt.String()
 		})
+		if o.TypeErr == "" {
+			o.Type, o.TypeText = typeTerm(pt), pt.String()
+		}
 		var w px.Value
 		o.WrapErr, o.WrapText = guarded(func() {
 			w = px.Wrap(c, gv.Interface())
@@ -160,6 +165,9 @@ func runCase(cs *Case) *Obs {
 			})
 		}
 		if ob.GetsErr == "" {
+			if len(args) == 1 {
+				_, ob.SingleHash = args[0].(px.OrderedMap)
+			}
 			ob.NewPErr, ob.NewPText = guarded(func() {
 				o3 := px.New(c, ot, args...)
 				back := c.Reflector().Reflect2(o3, rt)
@@ -181,6 +189,7 @@ const (
 	clsPtrPtr    = "ptr-to-ptr"            // pointer to pointer
 	clsPtrNil    = "ptr-to-nil-collection" // pointer to a nil slice / map collapses to a nil pointer
 	clsIfaceDyn  = "iface-noncanonical"    // interface{} holding a dynamic type other than int64/float64/string/bool: outside the property
+	clsPosHash   = "positional-single-hash" // the only positional constructor argument is a Hash: taken for the init hash
 )
 
 type classes struct {
@@ -256,7 +265,6 @@ func classify(s *Shape, v *Val, pos byte, underPtr, inField, inIface bool, out *
 		}
 		if s.E.K == "ptr" {
 			add(clsPtrPtr)
-			return
 		}
 		classify(s.E, v.L[0], 'R', true, inField, inIface, out)
 	case "iface":
@@ -363,14 +371,18 @@ func directCheck(cs *Case, o *Obs, res *lib.Result) (violated bool) {
 			}
 		}
 		if ob.GetsErr == "" {
+			posTags := objTags
+			if ob.SingleHash {
+				posTags = append(append([]string(nil), objTags...), clsPosHash)
+			}
 			switch {
 			case ob.NewPErr != "":
 				if !outside {
-					viol("struct-object", "constructing from the positional attribute values fails: "+ob.NewPErr+" "+ob.NewPText, objTags)
+					viol("struct-object", "constructing from the positional attribute values fails: "+ob.NewPErr+" "+ob.NewPText, posTags)
 				}
 			case !ob.NewPDeep:
 				if !outside {
-					viol("struct-object", "the instance constructed positionally converts back to a different struct: "+backText(cs.S, ob.NewPBack), objTags)
+					viol("struct-object", "the instance constructed positionally converts back to a different struct: "+backText(cs.S, ob.NewPBack), posTags)
 				}
 			}
 		}
